@@ -275,6 +275,12 @@ class Ctx:
             coverage["exhaustive_scope"] = str(coverage["exhaustive"])
             coverage["exhaustive"] = True
         path = os.path.join(EVIDENCE, self.pid + ".json")
+        if self.replay:
+            # a replay re-runs one stored case: it is no coverage run and leaves the property's evidence file alone
+            os.makedirs(os.path.join(EVIDENCE, "replays", self.pid), exist_ok=True)
+            with open(os.path.join(EVIDENCE, "replays", self.pid, "last-replay.json"), "w") as f:
+                json.dump(ev, f, indent=1, default=str)
+            return
         with open(path, "w") as f:
             json.dump(ev, f, indent=1, default=str)
         # validate with the tooling venv's jsonschema when present (never fatal for the verdict)
